@@ -159,7 +159,7 @@ def r2_ready_wake_agreement(ctx):
         ctx.check(op == 'gt', 'sleep-pending-table', 'Sleep::poll returns Pending iff deadline > now', fp.where(b), 'deadline %s now' % op)
     # bump: closures return slot.time <= cur, cur = now()
     atoms = _closure_ret_atoms(P, fb)
-    ctx.floor('slot predicates in TimerQueue::bump', len(atoms), 2)
+    ctx.floor('slot predicates in TimerQueue::bump', len(atoms), 1)
     for g, a in atoms:
         l, r = a[2], a[3]
         op = a[1]
@@ -223,24 +223,35 @@ def r3_wakeup_scheduling(ctx, rule='C05.R3'):
         ctx.check(len(put) == 1, 'driver-put-back', 'deactivate stores a driver back into the module on every path', f.where_path(path), len(put))
 
 
+def activation_wake_order(ctx, f, prefix=''):
+    """activate: bump -> wake every bumped slot -> install the driver (shared with C06.R3)"""
+    P = ctx.P
+    bump = f.calls_to(D + 'Driver::bump')
+    sets = f.calls_to(D + 'Driver::set')
+    wakes = per_item_calls(P, f, TS + '::wake_all')
+    if not (ctx.floor('Driver::bump in activate', len(bump), 1) and ctx.floor('Driver::set in activate', len(sets), 1) and ctx.floor('wake_all in activate', len(wakes), 1)):
+        return None
+    b0, s0 = bump[0], sets[0]
+    for w in wakes:
+        # order: the whole wake iteration lies between bump and set on every path
+        order = f.dominates(b0.b, w.anchor) and f.dominates(w.anchor, s0.b) and w.anchor not in f.reach_from(s0.b) and b0.b != s0.b
+        ctx.check(order, prefix + 'bump-wake-set-order',
+                  'activate bumps the timer queue, wakes every due slot and only then installs the driver for the callback', s0.where(), {'form': w.form})
+        ok = w.it is not None and w.it[0] == 'call' and w.it[1] == D + 'Driver::bump' and w.exhaustive
+        ctx.check(ok, prefix + 'wake-all-bumped', 'every slot returned by bump is woken (the iteration runs over the whole bump result, no early exit)', w.site.where(),
+                  {'iterator': show(w.it)[:160] if w.it else None, 'form': w.form, 'exhaustive': w.exhaustive})
+    return bump, sets, wakes
+
+
 def r4_wake_before_callback(ctx):
     ctx.set_rule('C05.R4')
     f = ctx.anchor('des::net::module::refs::ModuleRef::activate')
     if not f:
         return
-    bump = f.calls_to(D + 'Driver::bump')
-    sets = f.calls_to(D + 'Driver::set')
-    wakes = [s for s in f.calls() if any(a.get('fn') and strip_generics(a['fn']) == TS + '::wake_all' for a in s.args)
-             or s.name == TS + '::wake_all']
-    if not (ctx.floor('Driver::bump in activate', len(bump), 1) and ctx.floor('Driver::set in activate', len(sets), 1) and ctx.floor('wake_all in activate', len(wakes), 1)):
+    r = activation_wake_order(ctx, f)
+    if not r:
         return
-    b0, w0, s0 = bump[0], wakes[0], sets[0]
-    ctx.check(f.dominates(b0.b, w0.b) and f.dominates(w0.b, s0.b) and b0.b != w0.b != s0.b, 'bump-wake-set-order',
-              'activate bumps the timer queue, wakes every due slot and only then installs the driver for the callback', s0.where())
-    # wake_all consumes every bumped slot: for_each over into_iter(bump result)
-    recv = f.expr_operand(w0.args[0], w0.b, 'T')
-    ok = any(x[0] == 'call' and x[1] == D + 'Driver::bump' for x in walk(recv)) and w0.name.endswith('::for_each')
-    ctx.check(ok, 'wake-all-bumped', 'every slot returned by bump is woken', w0.where(), show(recv)[:200])
+    bump, sets, wakes = r
     # next_wakeup cleared iff <= now, with MAX
     wr = f.writes_to_field('next_wakeup')
     if ctx.floor('next_wakeup clear in activate', len(wr), 1):
@@ -272,7 +283,7 @@ def r5_registration(ctx, rule='C05.R5'):
     if ctx.floor('Driver::with_current in Sleep::poll', len(wc), 1):
         s = wc[0]
         atoms = [a for _, a in fp.guard_atoms(s.b)]
-        unsched = any(a[0] == 'bool' and a[1][0] == 'call' and a[1][1].endswith('::is_some') and a[2] is False for a in atoms)
+        unsched = any((option_state(a) or ('', None))[0] == 'none' and any(x[0] == 'field' and x[2] == 'handle' for x in walk(option_state(a)[1])) for a in atoms)
         pend = any(a[0] == 'cmp' and a[1] == 'gt' for a in atoms)
         ctx.check(unsched and pend, 'register-iff-unscheduled', 'a pending sleep registers iff it holds no handle yet', s.where(), [show_atom(a) for a in atoms])
         # handle stored
@@ -423,6 +434,15 @@ def r6_timeout_order(ctx):
             if st['k'] == 'assign' and st['p']['l'] == 0 and st['r']['k'] == 'agg' and st['r'].get('variant') == 'Ready':
                 t = g.expr_rvalue(st['r'], b, i)
                 if any(x[0] == 'agg' and x[1].endswith('Result::Err') for x in walk(t)):
+                    el = True
+    # same through Poll::map(delay.poll(cx), |()| Err(..))
+    for s in g.calls():
+        if s.name == 'std::task::Poll::map' and len(s.args) == 2:
+            a0 = g.expr_operand(s.args[0], s.b, 'T')
+            a1 = peel(g.expr_operand(s.args[1], s.b, 'T'))
+            if any(x[0] == 'call' and x[1] == dpoll[0].name for x in walk(a0)) and a1[0] == 'agg' and str(a1[1]).startswith('closure:'):
+                cl = P.fns.get(a1[1][len('closure:'):])
+                if cl and all(any(x[0] == 'agg' and x[1].endswith('Result::Err') for x in walk(t)) for t in ret_trees(cl)) and ret_trees(cl):
                     el = True
     ctx.check(el, 'elapsed-is-err', 'a reached deadline is returned as Err(Elapsed)', g.where())
 
